@@ -1086,7 +1086,8 @@ func (f *Focus) DrawBlock(v *View) []txgen.Tx {
 // validator is never absent (it must not be flagged for missed votes).
 func (f *Focus) DrawEnv(txs []txgen.Tx) sim.BlockSpec {
 	spec := sim.BlockSpec{}
-	spec.GapSecs = int64(sample(f.u(), []int{1, 2, 5, 5, 5, 17, 60, 3600, 86400, 90000}, "gap"))
+	// (6 and 12 hours: block times on both sides of a midnight between an event and its deadline a day later)
+	spec.GapSecs = int64(sample(f.u(), []int{1, 2, 5, 5, 5, 17, 60, 3600, 21600, 43200, 86400, 90000}, "gap"))
 	spec.ProposerIdx = f.rng(0, 15, "proposer")
 	if f.rng(0, 5, "hasabsent") == 0 {
 		na := f.rng(1, 2, "nabsent")
